@@ -870,6 +870,9 @@ def class_call_hook(cls, extra=None, model=None):
                     if isinstance(bound, Native) and callable(getattr(bound, f.attr, None)):
                         return NotImplemented          # a method of the model object itself
                     target = owner
+                    if isinstance(bound, Native) and getattr(bound, '_repo_class', None) is not None and bound._repo_class is not owner and \
+                            bound._repo_class.resolve(f.attr) is not None:
+                        target = bound._repo_class     # ``self`` is a model of another class than the one the session started with
                 else:
                     try:
                         base = ev.ev(f.value)
